@@ -13,7 +13,7 @@ from vf.checks import c05
 
 SHARDS = {'quick': 16, 'thorough': 64}
 TIMEOUT = {'quick': 1800, 'thorough': 7200}
-MUST_HIT = ['Consistency.delta', 'Census.ACT_SMT', 'Census.V_VAL', 'Chain.statements', 'Chain.parameters',
+MUST_HIT = ['Consistency.closed-population', 'Consistency.delta', 'Census.ACT_SMT', 'Census.V_VAL', 'Chain.statements', 'Chain.parameters',
             'Chain.navigation', 'Chain.event-data', 'Census.event-statement', 'Position.statement', 'Position.legacy-keyword-statement', 'Position.value', 'Scope.variable-block',
             'Typing.comparison', 'Typing.literal', 'Typing.variable', 'Typing.attribute', 'Typing.parameter',
             'Typing.selection', 'Typing.cardinality', 'Home.function', 'Home.bridge', 'Home.operation',
@@ -152,6 +152,13 @@ def check(ctx, rng, home, deciding=True):
         raise Mismatch('translate/%s@%s' % (type(e).__name__, fn[-1] if fn else '?'),
                        'prebuild raised %s: %s\n%s' % (type(e).__name__, e, text))
     ctx.hit('Home.' + home)
+    # the population is closed: whatever a prebuilt instance is related to is an instance of this model (not one of
+    # a model translated earlier in this process), and every link has its mirror image
+    ctx.hit('Consistency.closed-population')
+    from vf.xmodel import mirror_problems
+    probs = mirror_problems(m)
+    if probs:
+        raise Mismatch('consistency/population-not-closed', '%s\n%s' % ('; '.join(probs[:3]), text))
     after = (xtuml.check_association_integrity(m), xtuml.check_uniqueness_constraint(m))
     if after[0] != before[0]:
         raise Mismatch('consistency/association-violations', 'prebuild changed the number of association '
